@@ -60,14 +60,52 @@ def run(tier, seed, jobs):
     plans = [{"cfg_ref": ("vf.props.c03", "cfg", [3]), "alphabet": alphabet(tier), "depth": 3 if tier == "quick" else 4, "label": "INBOX(3)"}]
     if tier != "quick":
         plans.append({"cfg_ref": ("vf.props.c03", "cfg", [4]), "alphabet": alphabet(tier), "depth": 3, "label": "INBOX(4)"})
-    return run_h(PROP, RULES, plans, ("C03",), jobs, seed,
-                 ["sessions A (mutator) and B (prober) both selected on INBOX(3 or 4); pack threshold lowered to 2 messages",
-                  "expunge subsets are the 6 listed set shapes per state (composed over the history they reach every subset)",
-                  "INTERNALDATE compared exactly for messages whose date was supplied (APPEND date-time / delivery agent utime)"],
-                 time_budget=85 if tier == "quick" else 900)
+    res = run_h(PROP, RULES, plans, ("C03",), jobs, seed,
+                ["sessions A (mutator) and B (prober) both selected on INBOX(3 or 4); pack threshold lowered to 2 messages",
+                 "expunge subsets are the 6 listed set shapes per state (composed over the history they reach every subset)",
+                 "INTERNALDATE compared exactly for messages whose date was supplied (APPEND date-time / delivery agent utime)",
+                 "schedule part: UID FETCH / FETCH of one session overlapping EXPUNGE / MOVE / CLOSE of another (scenarios shared with C10), every schedule with "
+                 "<=2 (thorough 3) deviations: what a fetch returns for a UID is that UID's message in some sequential order of the two commands"],
+                time_budget=85 if tier == "quick" else 900)
+    from ..explore import sched
+
+    per = []
+    for sc in s_scenarios(tier):
+        r = sched.explore(sc, 2 if tier == "quick" else 3, jobs, seed, max_exec=20000 if tier == "quick" else 80000)
+        for f in r["failures"]:
+            if f.rule.startswith("C03.") or f.rule in ("C10.not-linearizable", "C01.fetch-binding"):
+                f.rule = f.rule.replace("C10.", "C03.").replace("C01.", "C03.")
+                res.failures.append(f)
+        res.coverage["states"] += r["executions"]
+        res.coverage["transitions"] += r["steps"]
+        res.coverage["traces_validated_against_impl"] += r["executions"]
+        per.append({"scenario": sc["name"], "executions": r["executions"], "bound": r["bound_completed"], "outcomes": r["distinct_outcomes"], "cap": r["cap"]})
+        if r["cap"]:
+            res.coverage["exhaustive"] = False
+    res.coverage["schedule_part"] = per
+    return res
+
+
+def s_scenarios(tier):
+    from . import c10
+
+    want = ["expunge|uidfetch", "expunge|fetch3", "close|fetch2", "expunge|uidfetch slow reader", "expunge|fetchall slow reader"]
+    by = {sc["name"]: sc for sc in c10.scenarios(tier)}
+    return [by[n] for n in want if n in by]
 
 
 def replay(rec):
+    rp = rec["replay"]
+    if rp.get("driver") == "s":
+        from ..explore import sched
+
+        _p, _n, _sig, fails, _st = sched.run_one((rp["scenario"], rp["choices"]))
+        out = []
+        for f in fails:
+            if f.rule.startswith("C03.") or f.rule in ("C10.not-linearizable", "C01.fetch-binding"):
+                f.rule = f.rule.replace("C10.", "C03.").replace("C01.", "C03.")
+                out.append(f)
+        return out
     from .hcommon import replay_h
 
     return replay_h("C0", rec)
